@@ -15,8 +15,79 @@ def kani_jobs(ctx):
     return n, jobs
 
 
+def explore_line_index(args):
+    """engine M: LineIndex::new(text) + LineIndex::line_col(text, pos) and Position::line_col for every valid UTF-8 text of
+    n bytes (symbolic) and every char-boundary offset, against the newline / character count"""
+    import z3
+    from mirsym.interp import Explorer, Interp
+    from mirsym.values import SliceRef, VecObj, Ptr, Cell, is_sym, Panic
+    from mirsym.summaries import S
+    from mirsym.setup import fn_evidence
+    from progsym import utf8_constraints
+    P, n = args
+    ex = Explorer(max_steps=400_000)
+    bs = [z3.BitVec(f"b{i}", 8) for i in range(n)]
+    ex.add_base(*utf8_constraints(bs))
+    rows = []; fns = set()
+
+    def body(W):
+        I = Interp(P, W, S)
+        text = SliceRef(VecObj(list(bs), "input"), 0, n, True)
+        li = I.call("", "LineIndex::new", [text])
+        out = []
+        line, col = 1, 1
+        for pos in range(n + 1):
+            # reference: count while walking (forks on newline / continuation byte exactly like the text dictates)
+            if pos > 0:
+                b = bs[pos - 1]
+                if W.branch(b == 10): line, col = line + 1, 1
+                elif not W.branch(z3.And(z3.UGE(b, 0x80), z3.ULT(b, 0xC0))): col += 1
+            isb = True if pos == n else not W.branch(z3.And(z3.UGE(bs[pos], 0x80), z3.ULT(bs[pos], 0xC0)))
+            if not isb: continue
+            try:
+                lc = I.call("", "LineIndex::line_col", [Ptr(Cell(li)), text, pos])
+                p = I.call("", "Position::new", [text, pos])
+                plc = I.call("", "Position::line_col", [Ptr(Cell(p.f[0]))]) if p.idx == 1 else None
+                out.append((pos, tuple(lc.f), tuple(plc.f) if plc is not None else None, (line, col)))
+            except Panic as e:
+                out.append((pos, "PANIC " + str(e), None, (line, col)))
+        fns.update(I.fn_used)
+        return out
+
+    for W, res in ex.explore(body):
+        if isinstance(res, Exception):
+            rows.append({"event": f"{type(res).__name__}: {res}"}); continue
+        m = W.get_model()
+        txt = bytes(m.eval(b, model_completion=True).as_long() for b in bs)
+        bad = [r for r in res if r[1] != r[3] or r[2] != r[3]]
+        rows.append({"text": txt.hex() or "-", "bad": bad[:2], "n": len(res)})
+    return {"rows": rows, "queries": ex.nqueries, "solver_s": ex.solver_time, "fns": fn_evidence(fns)}
+
+
 def run(ctx):
     n, jobs = kani_jobs(ctx)
+    # ---- engine M: LineIndex (what Pair::line_col uses) and Position::line_col agree with the character count
+    from mirsym.setup import program
+    import par
+    P = program(("pest",))
+    NM = int(os.environ.get("VERIF_C10_M_N", "5" if ctx.quick else "7"))
+    mres = par.pmap(explore_line_index, [(P, k) for k in range(NM + 1)], NCPU)
+    merr = [r[1] for r in mres if r[0] == "err"]
+    if merr: raise Inconclusive("LineIndex exploration failed: " + merr[0][:1200])
+    mres = [r[1] for r in mres]
+    mpaths = sum(len(r["rows"]) for r in mres); mevents = []
+    for r in mres:
+        for row in r["rows"]:
+            if row.get("event"): mevents.append(row["event"]); continue
+            if row["bad"] and len(ctx.violations) < 6:
+                pos, got, pgot, want = row["bad"][0]
+                what = f"text {bytes.fromhex(row['text']) if row['text'] != '-' else b''!r}, offset {pos}: LineIndex::line_col = {got}, Position::line_col = {pgot}, newline/character count = {want}"
+                pth = save_replay(ctx, f"linecol-{row['text']}-{pos}.json", {"kind": "linecol", "text": row["text"], "pos": pos, "want": list(want)})
+                ctx.violations.append((what, pth, row["text"]))
+    ctx.log(f"M: LineIndex/Position line_col on every valid UTF-8 text of 0..{NM} bytes: {mpaths} paths")
+    if ctx.violations:
+        write_evidence(ctx, "model_checking", {"states": mpaths, "transitions": mpaths, "traces_validated_against_impl": 0, "samples": [r["rows"][0] for r in mres if r["rows"]][:3]}, ["violation found by the M part; K part not run"])
+        return
     results = kani.run_harnesses(ctx, jobs)
     byh = {(j["harness"], j.get("variant", "default")): j for j in jobs}
     inconcl = kani.settle(ctx, results, byh)
@@ -30,7 +101,9 @@ def run(ctx):
                               "pest::Span::{new,get,start,end,as_str,split,start_pos,end_pos,lines_span}", "LinesSpan::next", "pest::merge_spans",
                               "core::str::{from_utf8, get, chars, char_indices, is_char_boundary} (compiled, no stub)"],
         "bounds": f"input: every byte string of length <= {n} that is valid UTF-8 (validity decided by the real core::str::from_utf8 inside the harness); offsets: any usize; unwinding assertions on",
-        "queries_discharged": sum(r["checks"] for r in results if r["status"] == "pass"),
+        "m_line_index_paths": mpaths, "m_line_index_bound": f"every valid UTF-8 text of 0..{NM} bytes (symbolic), every char-boundary offset: LineIndex::new/line_col (behind Pair::line_col) and Position::line_col vs the newline/character count",
+        "m_functions": sorted(set(f for r in mres for f in r["fns"])),
+        "queries_discharged": sum(r["checks"] for r in results if r["status"] == "pass") + sum(r["queries"] for r in mres),
         "solver_time_s": sum((r["cbmc_s"] or 0) for r in results),
         "explanation": "states = byte strings of length <= N before the UTF-8 assumption (symbolic, not enumerated); transitions = CBMC checks discharged",
     }
@@ -39,5 +112,16 @@ def run(ctx):
                     "lines()/lines_span() 'overlap' is read as: non-empty input lines [ls,le) with ls <= span.end and le > span.start",
                     "LineIndex, Pair::line_col, Error line/col and rendering are not covered by the K harnesses"],
                    {"repo_hashes": repo_hashes(["pest/src/position.rs", "pest/src/span.rs"])})
+    if mevents: inconcl.append(f"M events: {mevents[0]}")
     if inconcl:
         raise Inconclusive("; ".join(inconcl))
+
+
+def replay(ctx, path):
+    import json, native
+    d = json.load(open(path))
+    rep = native.run_lines("linecol", [f"{d['pos']} {d['text']}"])[0]
+    print(rep, "| want", d["want"])
+    if rep != f"{d['want'][0]}:{d['want'][1]} {d['want'][0]}:{d['want'][1]}":
+        print(f"VIOLATION property=C10 replay={path}"); return 1
+    return 0
